@@ -3,7 +3,7 @@ from .. import routing as R
 from .. import vfcore as V
 
 PROP = "C02"
-TARGETS = ["theories/Routing/Witness.vo", "theories/Routing/Basic.vo", "theories/Routing/Delivery.vo", "theories/Routing/Inv.vo", "theories/Routing/Place.vo", "theories/Routing/Wire.vo"]
+TARGETS = ["theories/Routing/Witness.vo", "theories/Routing/Basic.vo", "theories/Routing/Delivery.vo", "theories/Routing/Inv.vo", "theories/Routing/Place.vo", "theories/Routing/Wire.vo", "theories/Routing/Watermark.vo"]
 
 
 def nontrivial(h, ev):
@@ -73,11 +73,12 @@ MANIFEST = {
     "text": "Same model and correspondence as C01. Proved for every fault-free action sequence (corollaries of the invariant of Routing/Inv.v): every task a receiver has read is in the sequence "
             "handed to its owner's sender or in the pending group for that owner - never elsewhere, never dropped (C02_received_tasks_reach_their_owner); exactly once and in order as a list equality between what each target's "
             "sender has been handed plus what is pending for it and the received tasks it owns (C02_exact_placement, theories/Routing/Place.v) ; the proxy ids written on each target stream are exactly those of its table's task entries, strictly increasing "
-            "(C02_wire_ids, theories/Routing/Wire.v) - and in source order, no watermark overtaking a "
+            "(C02_wire_ids, theories/Routing/Wire.v), and every task-bearing message written on a target stream carries a watermark above each of its task ids and above the watermark of every "
+            "earlier message on that stream (C02_wire_watermarks, theories/Routing/Watermark.v) - and in source order, no watermark overtaking a "
             "task it covers (C02_owner_stream_in_source_order); grouping is an order-preserving partition; proxy ids are fresh and strictly increasing. The delivery clauses of the property are an executable monitor applied to every implementation trace (and implied for the model by the "
             "correspondence): every sent task was received, goes to the owner computed by the real hash, exactly once, payload identity preserved, source order per target, strictly increasing proxy "
             "ids, watermarks a Temporal receiver accepts (transcription of ExecutableTaskTracker.TrackTasks), and nothing undelivered after completion rounds. Known finding F10 (tasks without routing "
             "information are dropped and later acknowledged) is reported as KNOWN-FINDING.",
-    "note": "Trusted as C01. Proved: placement, order, and the ids written on each target's stream (C02_wire_ids: exactly the table's task entries, strictly increasing). Decided by the monitor + "
-            "correspondence on the explored histories only: payload identity on the wire, the watermark well-formedness a Temporal receiver checks, and eventual delivery.",
+    "note": "Trusted as C01. Proved: placement, order, and the ids written on each target's stream (C02_wire_ids: exactly the table's task entries, strictly increasing). and the watermark well-formedness a Temporal receiver checks (C02_wire_watermarks). Decided by the monitor + "
+            "correspondence on the explored histories only: payload identity on the wire and eventual delivery.",
 }
